@@ -92,6 +92,66 @@ Proof.
 Qed.
 Print Assumptions Link_kernel_end_to_end_unlisted.
 
+(* 1'. The same with the two size premises merged: "at most MaxMatchSetLen match-sets" gives both that
+   buildRoutingKernspace succeeds (Link_install_total) and that every domain set is below bit 1024. *)
+Theorem Link_kernel_end_to_end_sized :
+  forall (p : program) (b : builder) (prev : kmaps) (alloc : N)
+         (rx_ok : str -> bool) (rx : str -> str -> bool) (m : C11_Model.matcher ptrie)
+         (h : list cache_op) (pk : packet) (wan : bool),
+    wf_program p = true -> lower_program p = Ok b ->
+    (List.length (b_rules b) <= 1024)%nat ->
+    kw_nonempty (c01_sets p) = true -> sets_size_ok (c01_sets p) -> sets_ok rx_ok (c01_sets p) = true ->
+    c11_build rx_ok (c01_sets p) = Some m ->
+    probe_ok pk wan = true ->
+    p_domain pk <> ""%string -> name_ok (bytes (p_domain pk)) = true -> normalized (bytes (p_domain pk)) ->
+    c01_regex_oracles_agree p rx pk ->
+    (exists o e, cache_live h o = Some e /\ lists e (p_dst pk) = true) ->
+    (forall o e, cache_live h o = Some e -> lists e (p_dst pk) = true ->
+                 e_bitmap e = of_words (c01_dm rx m (p_domain pk))) ->
+    kernel_decides_table prev (b_rules b) (b_tries b) alloc (tracker_domain_map h) pk wan
+    = Ok (Some (dns_adjust (p_dport pk) (decide p pk))).
+Proof.
+  intros p b prev alloc rx_ok rx m h pk wan Hwf Hl Hsz Hk Hs Ho Hb Hprobe Hne Hn Hz Hrx Hex Hall.
+  destruct (Link_install_total p b prev alloc Hwf Hl Hsz) as [km Hinst].
+  assert (Hidx : c01_idx_ok p = true).
+  { apply (c01_idx_ok_of_rule_count p b Hl). unfold c11_nbits. lia. }
+  exact (Link_kernel_end_to_end p b prev alloc km rx_ok rx m h pk wan Hwf Hl Hk Hs Ho Hb Hidx Hprobe Hne Hn Hz Hrx Hex Hall Hinst).
+Qed.
+Print Assumptions Link_kernel_end_to_end_sized.
+
+(* Non-vacuity: rule `domain(suffix: b.c) -> proxy`, fallback direct; the cache holds a.b.c -> ::2 with the real
+   matcher's bitmap and another name -> ::3 with an empty bitmap.  The premises hold (the two cache premises in the
+   computable form of Link_C02_C10_own_domain_checked), the kernel routes a.b.c/::2 to proxy as `decide` says, and a
+   packet to the unlisted ::4 to the fallback. *)
+Definition e2e_pk (dst : N) : packet :=
+  {| p_src := 1; p_dst := dst; p_sport := 1000; p_dport := 443; p_l4 := TCP; p_ipver := V6;
+     p_domain := "a.b.c"; p_regex_hits := []; p_pname := repeat 0 16; p_mac := 0; p_dscp := 0 |}.
+
+Example Link_kernel_end_to_end_nonvacuous :
+  let p := lk_prog 2 DSuffix "b.c" in
+  wf_program p = true /\ probe_ok (e2e_pk 2) false = true /\
+  name_ok (bytes "a.b.c") = true /\ normalized (bytes "a.b.c") /\
+  decide p (e2e_pk 2) = (2, 0, false) /\ decide p (with_domain (e2e_pk 4) "") = (0, 0, false) /\
+  exists b, lower_program p = Ok b /\
+    (exists km, install empty_kmaps (b_rules b) (b_tries b) 0 = Ok km) /\
+    exists m, c11_build lk_rx_ok (c01_sets p) = Some m /\
+      let h := [ CInsert 7 {| e_bitmap := of_words (c01_dm lk_rx m "a.b.c"); e_answers := [(false, 2)] |};
+                 CInsert 8 {| e_bitmap := 0; e_answers := [(false, 3)] |} ] in
+      negb (Nat.eqb (List.length (live_listing h 2)) 0)
+        && forallb (N.eqb (of_words (c01_dm lk_rx m "a.b.c"))) (live_listing h 2) = true /\
+      Nat.eqb (List.length (live_listing h 4)) 0 = true /\
+      kernel_decides_table empty_kmaps (b_rules b) (b_tries b) 0 (tracker_domain_map h) (e2e_pk 2) false
+      = Ok (Some (2, 0, false)) /\
+      kernel_decides_table empty_kmaps (b_rules b) (b_tries b) 0 (tracker_domain_map h) (e2e_pk 4) false
+      = Ok (Some (0, 0, false)).
+Proof.
+  cbv zeta. split; [vm_compute; reflexivity|]. split; [vm_compute; reflexivity|]. split; [vm_compute; reflexivity|].
+  split; [vm_compute; reflexivity|]. split; [vm_compute; reflexivity|]. split; [vm_compute; reflexivity|].
+  eexists. split; [vm_compute; reflexivity|].
+  split; [eexists; vm_compute; reflexivity|].
+  apply with_build. vm_compute. repeat split; reflexivity.
+Qed.
+
 (* DISCHARGED (all interface hypotheses between C01, C02, C10, C11):
      - C02's wf_mset / wf_prefix premises on the match-set array and tries: theorems about C01's builder
        (Link_C01_C02.Link_lowered_msets_in_range, Link_C01_C12.Link_lowered_tries_ok);
